@@ -1,3 +1,6 @@
+import sys as _sys
+if hasattr(_sys, 'set_int_max_str_digits'):
+    _sys.set_int_max_str_digits(0)          # exact rationals of products of doubles have thousands of digits (z3 numerals are passed as text)
 from .core import (SR, SC, SI, SB, Ctx, explore, ctx, set_ctx, HarnessError, PathAbort,
                    is_sym, ite, smin, smax, model_value, ufn, ufn_c, RV)
 from . import core, npf, tokens, shadow
